@@ -740,7 +740,9 @@ func ruleJoinerCatchesUp(c *Ctx, rule string) {
 		return
 	}
 	n := 0
-	for _, ci := range callsIn(fn, func(ci ssa.CallInstruction) bool { return strings.HasSuffix(calleeName(ci), "BeaconProcess).StartBeacon") }) {
+	for _, ci := range callsIn(fn, func(ci ssa.CallInstruction) bool {
+		return strings.HasSuffix(calleeName(ci), "BeaconProcess).StartBeacon")
+	}) {
 		n++
 		a := ci.Common().Args
 		flag := a[len(a)-1]
